@@ -127,6 +127,23 @@ func schedCells() []schedCell {
 			time.Sleep(tR / 2) // P's IK entry (loaded at the start) is stale, the SK entry is not
 			newProcs(e, ps, 1)
 		}},
+		{"both-warm-keys-expire-2enc", 2, 2, 0, func(e *env, ps []*proc) {
+			// both processes are long-lived: they (re-)checked their cached keys shortly before the keys expire, so
+			// at the race the cache entries are still fresh while the keys are no longer valid; each process
+			// encrypts twice (the second encrypt meets whatever the first one left in the cache)
+			e.producer("P", 1)
+			time.Sleep(tE - tR/4)
+			newProcs(e, ps, 0)
+			for _, p := range ps {
+				pl := []byte("warm-up " + p.label)
+				d, err := p.s.Encrypt(context.Background(), pl)
+				if err != nil {
+					panic(err)
+				}
+				e.priors = append(e.priors, prior{"P", pl, d})
+			}
+			time.Sleep(tR/4 + 2*tP) // expired now; entries loaded tR/4+2tP ago are fresh
+		}},
 		{"cold-slow-kms-and-aead", 2, 1, 0, func(e *env, ps []*proc) {
 			// key creation is slow: wrapping a new key takes longer than one creation-date precision unit
 			e.w.KMS.Latency = func(op string) time.Duration {
